@@ -455,3 +455,71 @@ class DispatcherStop:
 
     def when_raised(self, old):
         return not self._stopping
+
+
+# ===================================================================== disable() of the active side (D46)
+@contract("secsgem.common.tcp_connection:TcpConnection.disconnect", "C09", name="DisconnectAbs")
+class DisconnectAbs:
+    """ASSUMED effect (the receiver thread is asked to stop and waited for)."""
+
+    abstract = True
+    modifies = {"self.g_disconnects": Int}
+
+    def ensures(self, old):
+        return self.g_disconnects == old.self.g_disconnects + 1
+
+
+@contract("secsgem.common.tcp_client_connection:TcpClientConnection.disable", "C09")
+class ClientDisable:
+    """Partial correctness of the stop-flag hand-shake (that the wait ends is liveness, exercised by the bounded pass): when
+    disable() returns the connection is not enabled, the link was closed once, and the stop flag is NOT left set - a flag
+    left behind would end the connect thread of the next enable() at its first wait, and the endpoint would never connect
+    again.  The flag and the thread's life belong to the connect thread: any value at every turn of the wait."""
+
+    uses = [IsAliveAbs, DisconnectAbs]
+    canary = "every-path"
+
+    def inputs():
+        return {"self": Obj(TcpClientConnection, enabled=Bool, stop_connection_thread=Const(False),
+                            connection_thread=Optional(Obj(AbsThread, g_dead=Bool)), g_disconnects=Int(0, None))}
+
+    def raises():
+        return {}
+
+    def ensures(self, old):
+        return (not self.enabled and not self.stop_connection_thread
+                and self.g_disconnects == old.self.g_disconnects + (1 if old.self.enabled else 0))
+
+    def inv(self):
+        return not self.enabled
+
+    loops = {1: Loop(a=inv, modifies=["self.stop_connection_thread", "self.connection_thread.g_dead"])}
+
+
+# ===================================================================== the listener thread's stop flag (D25)
+@contract("secsgem.common.tcp_server_connection:TcpServerConnection._TcpServerConnection__listen_and_accept", "C09", name="ListenAndAcceptAbs")
+class ListenAndAcceptAbs:
+    """Frame of ListenAndAccept as far as the stop flag is concerned: the run does not write it (it may end in OSError)."""
+
+    abstract = True
+    modifies = {"self._connected": Bool}
+    may_raise = [OSError]
+
+
+@contract("secsgem.common.tcp_server_connection:TcpServerConnection._TcpServerConnection__server_thread", "C09")
+class ServerThread:
+    """disable() waits for the stop flag to be cleared: the listener thread clears it however it ends - also when the
+    address cannot be bound and the OSError is passed on."""
+
+    uses = [ListenAndAcceptAbs]
+    canary = "every-path"
+    may_raise = [OSError]
+
+    def inputs():
+        return {"self": Obj(TcpServerConnection, _stop_server_thread=Bool, _connected=Bool)}
+
+    def ensures(self):
+        return not self._stop_server_thread
+
+    def when_raised(self):
+        return not self._stop_server_thread
